@@ -1114,7 +1114,7 @@ func CheckC09(c *Ctx) {
 		v := api.Ver
 		habv := hostileAbvs(v)
 		c.Extra["abbreviations_tried_v"+v.Name] = len(habv)
-		// full cross product abbreviation x value on the zero value and on seeded random objects
+		// full cross product abbreviation x value on the zero value, the highest-code corner object and a seeded random object
 		c.Parallel("matrix-"+v.Name, len(habv), 1, func(w *Worker, i int) {
 			ab := habv[i]
 			m := v.Index(ab)
@@ -1122,6 +1122,9 @@ func CheckC09(c *Ctx) {
 			starts := []string{"<zero value>"}
 			for k := 0; k < 2; k++ {
 				a := gen.RandomAssign(w.R, v)
+				if cs := cornerAssigns(api); k == 0 && len(cs) > 0 {
+					a = cs[0].Clone() // the highest-code corner: every field holds its top code (e.g. MSI:S and MSA:S)
+				}
 				o, fail := Build(api, a, HParseCanonical, w.R, nil)
 				if fail != "" {
 					c.Violate(Violation{Kind: "cannot-build-object", Version: v.Name, Expected: v.Canonical(a), Observed: fail})
